@@ -1,11 +1,14 @@
 // ctl_cell.cpp — controlled-schedule scenarios for one future/promise cell (C01, C02, C20 part).
 // engines: cell_int cell_void cell_uptr cell_ref cell_cnt
 // threads: 1 k d  resolver (k: 0 value, 1 exception, 2 drop, 3 move-then-destroy, 4 async coroutine co_return d,
-//                           5 async coroutine throwing d)
+//                           5 async coroutine throwing d, 6 move-then-destroy where the private copy dies by stack unwinding,
+//                           7 a coroutine doing co_await promise(d))
 //          2 k    waiter   (k: 0 coroutine co_await f, 1 thread sync()+value(), 2 callback awaiter, 3 thread has_value(),
-//                           4 coroutine co_await f.has_value())
+//                           4 coroutine co_await f.has_value(), 5 call_fn_future_awaiter: awt << factory; the first such
+//                           waiter owns the future under test as its internal future, further ones are plain callback
+//                           awaiters subscribed without await_ready)
 //          9 ...  schedule
-// result lines: "tid 1 ret" resolver, "tid 2 done kind datum runs parked" waiter, "11 tid ready 0" async frame destroyed,
+// result lines: "tid 1 ret" resolver, "tid 2 done kind datum runs parked ready" waiter (ready = the slot held the ready marker when it went on), "11 tid ready 0" async frame destroyed,
 //               "9 ready kind datum" final state of the future, "10 live 0" instance balance
 #define VH_DEFINE_NEW
 #include "ctl.h"
@@ -69,12 +72,14 @@ struct traits<counted> {
 };
 
 struct Seen {
-    long done = 0, kind = 0, datum = 0, runs = 0, parked = 0;
+    long done = 0, kind = 0, datum = 0, runs = 0, parked = 0, ready = 0;
 };
+static long is_ready_now(future_common &f) { return f._awaiter.load() == &awaiter::disabled ? 1 : 0; }
 
 template <typename T>
 static void read_into(future<T> &f, Seen &s) {
     s.runs++;
+    s.ready = is_ready_now(f);
     try {
         if constexpr (std::is_void_v<T>) {
             f.value();
@@ -117,6 +122,7 @@ static async<void> coro_waiter(future<T> &f, Seen &s) {
         s.kind = 7;
     }
     s.runs++;
+    s.ready = is_ready_now(f);
     s.done = 1;
 }
 
@@ -127,6 +133,7 @@ static async<void> coro_has_waiter(future<T> &f, Seen &s) {
     s.kind = 4;
     s.datum = b;
     s.runs++;
+    s.ready = is_ready_now(f);
     s.done = 1;
 }
 
@@ -168,6 +175,38 @@ static async<T> async_resolver(FrameGuard g, long kind, long datum) {
     else co_return traits<T>::make(datum);
 }
 
+// the factory of the call_fn waiter hands the promise to the harness: that is scenario set-up, not a step of the waiter,
+// so the scheduler hooks are muted while it runs
+struct MuteHooks {
+    int saved;
+    MuteHooks() : saved(ctl::Controller::tid()) { ctl::Controller::tid() = -1; }
+    ~MuteHooks() { ctl::Controller::tid() = saved; }
+};
+
+// call_fn_future_awaiter waiter: the future under test is its internal future
+template <typename T>
+struct Consumer {
+    Seen *s = nullptr;
+    suspend_point<void> on_result(future<T> &f) noexcept {
+        read_into(f, *s);
+        return {};
+    }
+    call_fn_future_awaiter<&Consumer::on_result> awt;
+    Consumer() : awt(*this) {}
+};
+
+// a coroutine that resolves by `co_await promise(value)` (suspend_point<bool>::await_suspend: pop + queue)
+template <typename T>
+static async<void> co_resolver(promise<T> *p, long d, long *res) {
+    if constexpr (std::is_void_v<T>) {
+        bool r = co_await (*p)();
+        *res = r;
+    } else {
+        bool r = co_await (*p)(traits<T>::make(d));
+        *res = r;
+    }
+}
+
 template <typename T>
 static void run_case(const vh::Case &cs) {
     struct Decl {
@@ -178,16 +217,22 @@ static void run_case(const vh::Case &cs) {
     std::vector<long> sched;
     for (auto &op : cs.ops) {
         if (op.empty()) continue;
-        if (op[0] == 1 && op.size() == 3 && op[1] >= 0 && op[1] <= 5) decl.push_back({1, op[1], op[2]});
-        else if (op[0] == 2 && op.size() == 2 && op[1] >= 0 && op[1] <= 4) decl.push_back({2, op[1], 0});
+        if (op[0] == 1 && op.size() == 3 && op[1] >= 0 && op[1] <= 7) decl.push_back({1, op[1], op[2]});
+        else if (op[0] == 2 && op.size() == 2 && op[1] >= 0 && op[1] <= 5) decl.push_back({2, op[1], 0});
         else if (op[0] == 9) sched.insert(sched.end(), op.begin() + 1, op.end());
     }
     decl.push_back({3, 0, 0});
     int n = (int)decl.size();
     long live0 = counted::live.load();
     {
-        future<T> fut;
-        std::optional<promise<T>> prom(fut.get_promise());
+        int callfn = -1;   // index of the call_fn waiter that owns the future under test
+        for (int i = 0; i < n; i++)
+            if (decl[i].role == 2 && decl[i].kind == 5 && callfn < 0) callfn = i;
+        future<T> fut_own;
+        std::unique_ptr<Consumer<T>> cons(callfn >= 0 ? new Consumer<T>() : nullptr);
+        future<T> &fut = cons ? cons->awt._fut : fut_own;
+        std::optional<promise<T>> prom;
+        if (!cons) prom.emplace(fut_own.get_promise());
         std::vector<long> res(n, -1);
         std::vector<Seen> seen(n);
         std::vector<long> frame(n, -1);
@@ -215,6 +260,18 @@ static void run_case(const vh::Case &cs) {
                         }
                         case 4:
                         case 5: res[i] = async_resolver<T>(FrameGuard(&fut, &frame[i]), d.kind, d.datum).start(*prom); break;
+                        case 6: {
+                            bool got = false;
+                            try {
+                                promise<T> p2(std::move(*prom));
+                                got = (bool)p2;
+                                throw 1;   // p2 is destroyed by stack unwinding
+                            } catch (int) {
+                            }
+                            res[i] = got;
+                            break;
+                        }
+                        case 7: co_resolver<T>(&*prom, d.datum, &res[i]).detach(); break;
                     }
                     resolvers_done++;
                 });
@@ -233,8 +290,27 @@ static void run_case(const vh::Case &cs) {
                             seen[i].parked = !seen[i].done;
                             break;
                         case 4:
+                            ctl::point("wstart");
                             coro_has_waiter<T>(fut, seen[i]).detach();
                             seen[i].parked = !seen[i].done;
+                            break;
+                        case 5:
+                            if (i == callfn) {
+                                cons->s = &seen[i];
+                                cons->awt << [&] {
+                                    MuteHooks mute;
+                                    return future<T>([&](promise<T> x) { prom.emplace(std::move(x)); });
+                                };
+                                seen[i].parked = !seen[i].done;
+                            } else {
+                                auto *cb = new CbCtx<T>(fut, seen[i]);
+                                if (!cb->aw.await_suspend(&CbCtx<T>::fn, cb)) {
+                                    read_into(fut, seen[i]);
+                                    delete cb;
+                                } else {
+                                    seen[i].parked = 1;
+                                }
+                            }
                             break;
                         case 1: {
                             fut.sync();
@@ -252,7 +328,9 @@ static void run_case(const vh::Case &cs) {
                             break;
                         }
                         case 3: {
+                            ctl::point("wstart");
                             bool b = fut.has_value();
+                            seen[i].ready = is_ready_now(fut);
                             seen[i].runs++;
                             seen[i].done = 1;
                             seen[i].kind = 4;
@@ -264,7 +342,13 @@ static void run_case(const vh::Case &cs) {
             }
         }
         ctl::Controller c;
-        c.run(std::move(fns), sched);
+        std::vector<int> order;   // the call_fn waiter creates the future and the promise in its init phase: it goes first
+        if (callfn >= 0) {
+            order.push_back(callfn);
+            for (int i = 0; i < n; i++)
+                if (i != callfn) order.push_back(i);
+        }
+        c.run(std::move(fns), sched, order);
         c.print_trace();
         for (int i = 0; i < n; i++) {
             if (decl[i].role == 2) {
@@ -272,7 +356,7 @@ static void run_case(const vh::Case &cs) {
                 if (decl[i].kind == 1 || decl[i].kind == 3)   // sync(): it suspended iff it reached the flag wait
                     for (auto &p : c.trace)
                         if (p.first == i && p.second == ctl::point_code("flagwait")) parked = 1;
-                vh::print_obs({(long)i, 2, seen[i].done, seen[i].kind, seen[i].datum, seen[i].runs, parked});
+                vh::print_obs({(long)i, 2, seen[i].done, seen[i].kind, seen[i].datum, seen[i].runs, parked, seen[i].done ? seen[i].ready : 0});
             } else {
                 vh::print_obs({(long)i, 1, res[i]});
             }
